@@ -152,8 +152,8 @@ enum Policy { P_DEFAULT = 0, P_REUSABLE, P_MTSAFE, P_STACK, P_PLACEMENT, P_BUFFE
 static const char *pol_names[] = {"default", "reusable", "reusable_mtsafe", "stack_storage", "placement_alloc", "reusable_buffer", "extra+default", "extra+reusable", "extra+reusable_mtsafe", "reusable_buffer<24-byte items>", "extra(alignas16)+default", "extra(alignas16)+reusable"};
 static bool single_frame(int p) { return p == P_REUSABLE || p == P_PLACEMENT || p == P_BUFFER || p == P_EXTRA_REUSABLE || p == P_BUFFER24 || p == P_EXTRA16_REUSABLE; }
 
-enum { CREATE_S = 0, CREATE_M, CREATE_L, FINISH0, FINISH1, FINISH2, MOVE_CTOR, MOVE_ASSIGN, MOVE_AWAY, NOPS };
-static const char *op_names[] = {"create(S)", "create(M)", "create(L)", "finish(0)", "finish(1)", "finish(2)", "move-construct-storage", "move-assign-storage", "move-away-and-keep-using-the-source"};
+enum { CREATE_S = 0, CREATE_M, CREATE_L, FINISH0, FINISH1, FINISH2, MOVE_CTOR, MOVE_ASSIGN, MOVE_AWAY, MOVE_ASSIGN_WARM, NOPS };
+static const char *op_names[] = {"create(S)", "create(M)", "create(L)", "finish(0)", "finish(1)", "finish(2)", "move-construct-storage", "move-assign-storage", "move-away-and-keep-using-the-source", "move-assign-onto-storage-that-owns-a-block"};
 
 static std::string describe(int pol, const std::vector<int> &seq) {
     std::ostringstream o;
@@ -181,6 +181,14 @@ struct HReusable {
     }
     void move_assign() {
         std::unique_ptr<Spy<cocls::reusable_storage>> n(new Spy<cocls::reusable_storage>());
+        static_cast<cocls::reusable_storage &>(*n) = std::move(static_cast<cocls::reusable_storage &>(*st));
+        st = std::move(n);
+    }
+    void move_assign_onto_warm() {
+        // the destination of the assignment already owns a block of its own (it served a frame before): that block is released,
+        // the source's block is taken over
+        std::unique_ptr<Spy<cocls::reusable_storage>> n(new Spy<cocls::reusable_storage>());
+        static_cast<cocls::reusable_storage &>(*n).alloc(24);
         static_cast<cocls::reusable_storage &>(*n) = std::move(static_cast<cocls::reusable_storage &>(*st));
         st = std::move(n);
     }
@@ -315,6 +323,8 @@ static void run_policy(seqx::Runner &R, int pol, const std::vector<int> &seq) {
                 if (cls > max_cls_seen && !(is_mtsafe && !live.empty())) max_cls_seen = cls;
                 seqx::NoCount nc;
                 live.push_back(std::move(s));
+            } else if (op == MOVE_ASSIGN_WARM) {
+                if constexpr (requires { h->move_assign_onto_warm(); }) h->move_assign_onto_warm();
             } else if (op == MOVE_CTOR || op == MOVE_ASSIGN || op == MOVE_AWAY) {
                 if constexpr (requires { h->move_ctor(); }) {
                     if (op == MOVE_CTOR)
@@ -397,9 +407,11 @@ static void run_case(seqx::Runner &R, int pol, const std::vector<int> &seq) {
 // buffer has exactly the size the storage asks for; states around the frame size decide between "fits" and "heap".
 // ASan guards both ends of the exactly sized buffer.
 static size_t g_frame_size[3];
-static void stack_presize_case(seqx::Runner &R, int cls, int delta) {
+// same_object: the storage object and its buffer are prepared once and serve both frames one after the other (a loop that starts
+// one coroutine per iteration); otherwise every frame gets a storage object of its own, as the header's example shows
+static void stack_presize_case(seqx::Runner &R, int cls, int delta, bool same_object) {
     char nm[96];
-    snprintf(nm, sizeof nm, "stack-presize;cls=%d;delta=%d;", cls, delta);
+    snprintf(nm, sizeof nm, "stack-presize;cls=%d;delta=%d;%s", cls, delta, same_object ? "same-storage-object;" : "");
     R.begin(nm);
     g_R = &R;
     {
@@ -412,18 +424,20 @@ static void stack_presize_case(seqx::Runner &R, int cls, int delta) {
         size_t sz = g_frame_size[cls];
         size_t state = delta == -1000 ? 0 : (size_t)((long)sz + delta);
         size_t init = state;
+        std::unique_ptr<Spy<cocls::stack_storage>> st;
+        std::unique_ptr<std::vector<char>> buf;
+        size_t want = 0;
         for (int round = 0; round < 2 && !R.case_fail; round++) {  // second round: what the first one learned
             std::unique_ptr<Slot> s;
-            std::unique_ptr<Spy<cocls::stack_storage>> st;
-            std::unique_ptr<std::vector<char>> buf;
-            size_t want;
             {
                 seqx::NoCount nc;
                 s.reset(new Slot());
-                st.reset(new Spy<cocls::stack_storage>(state));
-                want = *st;
-                buf.reset(new std::vector<char>(want ? want : 1, (char)0xFF));  // a dirty stack, as alloca gives
-                *static_cast<cocls::stack_storage *>(st.get()) = buf->data();
+                if (!st) {
+                    st.reset(new Spy<cocls::stack_storage>(state));
+                    want = *st;
+                    buf.reset(new std::vector<char>(want ? want : 1, (char)0xFF));  // a dirty stack, as alloca gives
+                    *static_cast<cocls::stack_storage *>(st.get()) = buf->data();
+                }
             }
             s->gate_p = s->gate.get_promise();
             R.step();
@@ -439,8 +453,10 @@ static void stack_presize_case(seqx::Runner &R, int cls, int delta) {
             if (!s->done || !s->canary_ok) R.fail("storage/frame-memory-clobbered", "frame did not finish intact");
             seqx::NoCount nc;
             s.reset();
-            st.reset();
-            buf.reset();
+            if (!same_object || round == 1) {
+                st.reset();
+                buf.reset();
+            }
         }
         if (!R.case_fail && g_spy_allocs != g_spy_deallocs) R.fail("storage/dealloc-count", "%d frames allocated but %d deallocated", g_spy_allocs, g_spy_deallocs);
         R.outcome(seqx::mix((uint64_t)cls, (uint64_t)(delta + 2000)));
@@ -485,7 +501,7 @@ static void dfs(seqx::Runner &R, int pol, int depth, std::vector<int> &seq, int 
             seq.push_back(op);
             dfs(R, pol, depth, seq, nlive + 1);
             seq.pop_back();
-        } else if (op == MOVE_CTOR || op == MOVE_ASSIGN || op == MOVE_AWAY) {
+        } else if (op == MOVE_CTOR || op == MOVE_ASSIGN || op == MOVE_AWAY || op == MOVE_ASSIGN_WARM) {
             if (pol != P_REUSABLE || nlive != 0 || seq.empty() || seq.back() >= MOVE_CTOR) continue;
             seq.push_back(op);
             dfs(R, pol, depth, seq, nlive);
@@ -506,7 +522,8 @@ void seqx_run(seqx::Runner &R, const std::string &tier) {
     learn_frame_sizes(R);
     for (int cls = 0; cls < 3; cls++)
         for (int d : presize_deltas)
-            if (R.next_case()) stack_presize_case(R, cls, d);
+            for (int same = 0; same < 2; same++)
+                if (R.next_case()) stack_presize_case(R, cls, d, same != 0);
     for (int pol = 0; pol < NPOL; pol++) {
         std::vector<int> seq;
         dfs(R, pol, tier == "quick" ? 5 : 7, seq, 0);
@@ -518,7 +535,7 @@ void seqx_replay(seqx::Runner &R, const std::string &c) {
     if (c.rfind("stack-presize", 0) == 0) {
         learn_frame_sizes(R);
         R.next_case();
-        stack_presize_case(R, atoi(c.c_str() + c.find("cls=") + 4), atoi(c.c_str() + c.find("delta=") + 6));
+        stack_presize_case(R, atoi(c.c_str() + c.find("cls=") + 4), atoi(c.c_str() + c.find("delta=") + 6), c.find("same-storage-object") != std::string::npos);
         return;
     }
     int pol = atoi(c.c_str() + c.find("policy=") + 7);
